@@ -523,3 +523,7 @@ CHECKS = [
           rule="histograms with int cells (with or without context) x sequences of 1-3 elements (pure, context-adding, stateful Sum/Count/StoreFilled, 1:2 expander, filter) x drop_bins_context: "
                "same edges (equal, unshared), each cell = a fresh sequence applied to that cell alone, min number of results. Non-trivial = >= 2 cells and a stateful sequence or 2 dimensions."),
 ]
+
+
+from .. import covfuzz  # noqa
+CHECKS.append(covfuzz.check(CHECKS, "harness.props.c11", "split_into_bins", quick=1500, thorough=40000))
